@@ -257,15 +257,17 @@ RCP<const Set> Interval::set_union(const RCP<const Set> &o) const
 RCP<const Set> Interval::set_complement(const RCP<const Set> &o) const
 {
     if (is_a<Interval>(*o)) {
+        // o \ this = (o below this) united with (o above this); each part is
+        // an intersection so that disjoint and partly overlapping intervals
+        // are handled as well
         set_set cont;
-        const Interval &other = down_cast<const Interval &>(*o);
-        if (eq(*max({start_, other.start_}), *start_)) {
-            cont.insert(interval(other.get_start(), start_,
-                                 other.get_left_open(), not left_open_));
+        if (not eq(*start_, *NegInf)) {
+            cont.insert(o->set_intersection(
+                interval(NegInf, start_, true, not left_open_)));
         }
-        if (eq(*min({end_, other.end_}), *end_)) {
-            cont.insert(interval(end_, other.get_end(), not right_open_,
-                                 other.get_right_open()));
+        if (not eq(*end_, *Inf)) {
+            cont.insert(o->set_intersection(
+                interval(end_, Inf, not right_open_, true)));
         }
         return SymEngine::set_union(cont);
     }
